@@ -157,8 +157,8 @@ VARIANTS = {
         V("metadata written through", NS, "metadata = dict(metadata) if metadata else {}", "metadata = metadata if metadata else {}"),
         V("reserved network names accepted", NS, "for net in self.networks:\n    if net in metadata.keys():\n        raise ValueError(f\"Invalid key in metadata; '{net}' cannot be a key!\")", "pass"),
         V("equivalent: validation after assembling the payload (before writing)", NS,
-          "for net in self.networks:\n    if net in metadata.keys():\n        raise ValueError(f\"Invalid key in metadata; '{net}' cannot be a key!\")\ndata = {net: getattr(self, net).state_dict() for net in self.networks}\ndata.update(**metadata)",
-          "data = {net: getattr(self, net).state_dict() for net in self.networks}\ndata.update(**metadata)\nfor net in self.networks:\n    if net in metadata.keys():\n        raise ValueError(f\"Invalid key in metadata; '{net}' cannot be a key!\")", "silent"),
+          "for net in self.networks:\n    if net in metadata.keys():\n        raise ValueError(f\"Invalid key in metadata; '{net}' cannot be a key!\")\ndata = {net: getattr(self, net).state_dict() for net in self.networks}\ndata.update(metadata)",
+          "data = {net: getattr(self, net).state_dict() for net in self.networks}\ndata.update(metadata)\nfor net in self.networks:\n    if net in metadata.keys():\n        raise ValueError(f\"Invalid key in metadata; '{net}' cannot be a key!\")", "silent"),
     ],
     "C12": [
         V("stop test before batch-end", NS, "callbacks.on_batch_end(self, ep, b)\nif self.stop_training:\n    break", "if self.stop_training:\n    break\ncallbacks.on_batch_end(self, ep, b)"),
@@ -200,7 +200,7 @@ VARIANTS = {
         V("kronecker index order", CX, "einsum('ab,cd->acbd', x, y)", "einsum('ab,cd->cadb', x, y)"),
         V("out= aliasing check weakened", CX, "_share_storage(out, x) or _share_storage(out, y)", "_share_storage(out, x)"),
         V("out= aliasing check by identity only", CX, "_share_storage(out, x) or _share_storage(out, y)", "out is x or out is y"),
-        V("inverse without conjugation", CX, "return z_star / denominator", "return z / denominator"),
+        V("inverse without conjugation", CX, "return conj(w) / (real(w) ** 2 + imag(w) ** 2) / s", "return w / (real(w) ** 2 + imag(w) ** 2) / s"),
         V("conjugate transpose without conjugation", CX, "-torch.transpose(imag(x), 0, 1)", "torch.transpose(imag(x), 0, 1)"),
         V("real() returns a copy", CX, "return x[0, ...]", "return x[0, ...].clone()"),
         V("matmul imaginary part sign", CX, "torch.matmul(real(x), imag(y)).add_(torch.matmul(imag(x), real(y)))", "torch.matmul(real(x), imag(y)).sub_(torch.matmul(imag(x), real(y)))"),
